@@ -20,6 +20,7 @@ type Org struct {
 	Name string
 	Sub  []*Org
 	Idx  int
+	R    *Resolver // call origins: the resolver (calling context) the call was seen in
 }
 
 func (o *Org) String() string {
@@ -335,11 +336,11 @@ func (r *Resolver) of(v ssa.Value) *Org {
 	case *ssa.BinOp:
 		return &Org{K: "binop", V: x, Name: x.Op.String(), Sub: []*Org{r.Of(x.X), r.Of(x.Y)}}
 	case *ssa.Call:
-		return &Org{K: "call", V: x, Name: calleeName(x.Common()), Idx: -1}
+		return &Org{K: "call", V: x, Name: calleeName(x.Common()), Idx: -1, R: r}
 	case *ssa.Extract:
 		in := r.Of(x.Tuple)
 		if in.K == "call" {
-			return &Org{K: "call", V: in.V, Name: in.Name, Idx: x.Index}
+			return &Org{K: "call", V: in.V, Name: in.Name, Idx: x.Index, R: in.R}
 		}
 		if in.K == "range" {
 			n := []string{"ok", "key", "value"}[x.Index]
